@@ -815,6 +815,20 @@ fn val_family(o: &mut Out, r: &mut Rng, n: usize, batched: bool) {
         let (_, mw0) = mk(r, 0, 0, None);
         top_responses(o, r, &format!("{}.zero-amount.top-response", name), &name, &mw0, 2, k);
     }
+    // no auditor (identity last key) but a live point in the auditor's handle — lo, hi, or both: the handle equation
+    // reads D = c*0 + Y there, so with Y the identity any non-identity handle must be refused
+    {
+        let ta: Vec<String> = mwa.split_whitespace().map(|s| s.to_string()).collect();
+        let live = hp(&(rand_nonzero(r) * G));
+        let lo_h = first_pt + 1 + (n - 1);
+        let mut sets: Vec<Vec<usize>> = vec![vec![lo_h]];
+        if batched { let hi_h = first_pt + (n + 1) + 1 + (n - 1); sets.push(vec![hi_h]); sets.push(vec![lo_h, hi_h]); }
+        for set in sets {
+            let mut t = ta.clone();
+            for i in set { t[i] = live.clone(); }
+            o.op(&format!("{}.id-auditor.live-handle", name), &format!("mprove R {} {} {} {}", name, t.join(" "), nonces(r, 2), zeros(k)));
+        }
+    }
     // identity non-auditor key: refused
     for i in 0..(n - 1) {
         let mut ps: Vec<RistrettoPoint> = (0..n).map(|_| kp(r).p).collect();
@@ -939,6 +953,23 @@ pub fn gen_c03(o: &mut Out, tier: &str, seed: u64) {
         o.op("cap.false-eq", &format!("mprove R cap eq {} {} {} {} {} {}", pts(&f), hs(&Scalar::from(77u64)), hs(&f.rd), hs(&f.rc), nonces(&mut r, 5), zeros(3)));
         o.op("cap.false-eq", &format!("mprove R cap eq {} {} {} {} {} {}", pts(&f), hs(&Scalar::from(78u64)), hs(&f.rd), hs(&f.rc), nonces(&mut r, 5), zeros(3)));
         o.op("cap.false-max", &format!("mprove R cap max {} {} {} {} {} {}", pts(&f), hs(&f.rp), ZERO_PT, ZERO_PT, nonces(&mut r, 5), zeros(3)));
+        // false in both branches, with everything the two equality relations have in common made equal: delta and claimed
+        // commitments under one opening (different values), equal nonces — so Y_delta = Y_claimed and z_delta = z_claimed
+        {
+            let mut g = cap_below(&mut r, pct, max, 77);
+            g.rc = g.rd; g.cc = commit(&Scalar::from(78u64), &g.rc);
+            for x in [77u64, 78] {
+                let (yx, yd) = (rand_nonzero(&mut r), rand_nonzero(&mut r));
+                let n = format!("{} {} {} {} {}", hs(&rand_scalar(&mut r)), hs(&rand_scalar(&mut r)), hs(&yx), hs(&yd), hs(&yd));
+                o.op("cap.false-eq.twin-halves", &format!("mprove R cap eq {} {} {} {} {} {}", pts(&g), hs(&Scalar::from(x)), hs(&g.rd), hs(&g.rc), n, zeros(3)));
+            }
+            // the true counterpart (same value): accepted
+            let mut h = cap_below(&mut r, pct, max, 77);
+            h.rc = h.rd; h.cc = h.cd;
+            let (yx, yd) = (rand_nonzero(&mut r), rand_nonzero(&mut r));
+            let n = format!("{} {} {} {} {}", hs(&rand_scalar(&mut r)), hs(&rand_scalar(&mut r)), hs(&yx), hs(&yd), hs(&yd));
+            o.op("cap.true-eq.twin-halves", &format!("mprove A cap eq {} {} {} {} {} {}", pts(&h), hs(&Scalar::from(77u64)), hs(&h.rd), hs(&h.rc), n, zeros(3)));
+        }
         // true by one branch only: each branch run on the false side
         o.op("cap.wrong-branch", &format!("mprove R cap max {} {} {} {} {} {}", pts(&st), hs(&st.rp), ZERO_PT, ZERO_PT, nonces(&mut r, 5), zeros(3)));
         // residual vectors
